@@ -285,16 +285,22 @@ func runStage(rc *runCfg, st stage) ([]workerOutcome, error) {
 	}
 	outs := make([]workerOutcome, n)
 	var wg sync.WaitGroup
+	sem := make(chan struct{}, rc.workers)
 	for w := 0; w < n; w++ {
 		wg.Add(1)
 		go func(w int) {
 			defer wg.Done()
+			sem <- struct{}{}
+			defer func() { <-sem }()
 			base := filepath.Join(scratch, fmt.Sprintf("%s-%s-%s-%d", rc.prop, st.config, st.mode, w))
 			args := []string{"-prop", rc.prop, "-seed", fmt.Sprint(rc.seed), "-tier", rc.tier, "-config", st.config,
 				"-worker", fmt.Sprint(w), "-nworkers", fmt.Sprint(n), "-case", fmt.Sprint(rc.only),
 				"-out", base + ".json", "-hashes", base + ".hashes", "-progress", base + ".progress", "-mode", st.mode}
 			cmd := exec.Command(bin, args...)
-			cmd.Env = append(os.Environ(), st.env...)
+			cmd.Env = os.Environ()
+			for _, e := range st.env {
+				cmd.Env = append(cmd.Env, strings.ReplaceAll(e, "%w", fmt.Sprint(w)))
+			}
 			cmd.Env = append(cmd.Env, "VERIF_SCRATCH="+scratch)
 			errf, _ := os.Create(base + ".stderr")
 			cmd.Stderr = errf
@@ -574,6 +580,7 @@ type plan struct {
 	assumptions []string
 	minEvals    int64
 	custom      func(rc *runCfg, pl *plan, m *merged) error // extra controller-side work
+	runner      func(rc *runCfg, pl *plan, m *merged) error // replaces the stage loop entirely
 }
 
 func runProperty(rc *runCfg, pl *plan) int {
@@ -602,17 +609,26 @@ func runProperty(rc *runCfg, pl *plan) int {
 		if len(sts) == 0 {
 			sts = pl.stages
 		}
-		pl = &plan{stages: sts, rule: pl.rule, assumptions: pl.assumptions}
+		if pl.custom != nil {
+			sts = pl.stages // controller-side comparisons need every stage
+		}
+		pl = &plan{stages: sts, rule: pl.rule, assumptions: pl.assumptions, custom: pl.custom, runner: pl.runner}
 	}
 	m := newMerged()
-	for _, st := range pl.stages {
-		outs, err := runStage(rc, st)
-		if err != nil {
+	if pl.runner != nil {
+		if err := pl.runner(rc, pl, m); err != nil {
 			fatal2("%v", err)
 		}
-		m.absorb(rc, st, outs)
+	} else {
+		for _, st := range pl.stages {
+			outs, err := runStage(rc, st)
+			if err != nil {
+				fatal2("%v", err)
+			}
+			m.absorb(rc, st, outs)
+		}
 	}
-	if pl.custom != nil && rc.replay == "" {
+	if pl.custom != nil {
 		if err := pl.custom(rc, pl, m); err != nil {
 			fatal2("%v", err)
 		}
